@@ -1055,7 +1055,18 @@ def run_direct(ctx, zoo, spaces, lines, meta):
         c = Case('direct', skey, kind, uname, u, method, 'e' * len(inputs),
                  ''.join(out_kind(o, Case('direct', skey, kind, uname, u, method, '', '', {}))
                          for o in outs) or 'empty', {})
-        r = dict(c=c, ops=inputs, pre=pl, x=x, np0=np0, npo=np0, impl=impl, outs_odl=outs,
+        # NumPy's result as the glue sees it: evaluated WITH the (plain) out arrays
+        npo = np0
+        if n in (0, nres) and n and ch in 'aeN' and method != 'at':
+            pouts = tuple(None if o is None else np.array(
+                o.asarray() if kind_of(o) else o, copy=True) for o in outs)
+            try:
+                npo = ('ok', call(u, method, [p.copy() if isinstance(p, np.ndarray) else p
+                                              for p in pl], {},
+                                  pouts if method == '__call__' else pouts[0]))
+            except Exception as e:  # noqa
+                npo = ('err', e)
+        r = dict(c=c, ops=inputs, pre=pl, x=x, np0=np0, npo=npo, impl=impl, outs_odl=outs,
                  outs_np=None, np_after=None, kw={}, space=space)
         # the arity oracle: a tuple whose length is neither 0 nor the number of outputs
         # must be rejected with ValueError; a well-formed one must not raise it
